@@ -342,6 +342,12 @@ HOSTILE = {
     "deeply_nested": "".join("    " * i + "def f%d():\n" % i for i in range(60)) + "    " * 60 + "import proj.tg.t0\n",
     "same_module_many_times": "import proj.tg.t0\nimport proj.tg.t0 as again\nfrom proj.tg import t0\nfrom proj.tg import t0 as third\nfrom proj.tg.t0 import name, name as n2\n",
     "future_import_first": "from __future__ import annotations\nimport proj.tg.t0\n",
+    "elif_chain_of_300": "x = 5\nif x == 0:\n    pass\n" + "".join(f"elif x == {i}:\n    pass\n" for i in range(1, 300)) + "else:\n    import proj.tg.t0\n",
+    "import_in_the_250th_elif": "x = 5\nif x == 0:\n    pass\n" + "".join(f"elif x == {i}:\n    " + ("import proj.tg.t0" if i == 250 else "pass") + "\n" for i in range(1, 280)),
+    "two_thousand_statements_before": "\n".join(f"def f{i}():\n    return {i}" for i in range(2000)) + "\nimport proj.tg.t0\n",
+    "header_line_imports_only": "try: import proj.tg.t0\nexcept ImportError: pass\n",
+    "semicolon_only_import": "x = 1; import proj.tg.t0\n",
+    "if_header_line_import": "import_flag = True\nif import_flag: from proj.tg import t0\n",
     "fstring_nested_quotes": "x = f\"{'import proj.tg.t1'!r:>{10}}\"\nimport proj.tg.t0\n",
 }
 
